@@ -200,9 +200,15 @@ func c08HasNever(t sema.Type) bool {
 	return t == sema.NeverType
 }
 
+// c08Universe: T(depth) + tygen.Extras + the types over contract D (interface
+// inheritance chains of depth 3, struct and resource kinded).
+func c08Universe(depth int) []tygen.Ty {
+	return append(append([]tygen.Ty{}, tygen.UniversePlus(depth)...), tygen.ChainTypes()...)
+}
+
 func c08Depth(env *mc.Env) int { return mc.Pick(env, 1, 2) }
 
-var c08ConvPool = sync.Pool{New: func() any { return tygen.NewConverter() }}
+var c08ConvPool = sync.Pool{New: func() any { return tygen.NewChainConverter() }}
 
 // c08Tally counts violating cases per law (signature prefix), for the evidence.
 type c08Tally struct {
@@ -285,7 +291,7 @@ func c08Roundtrip(conv *interpreter.Interpreter, t tygen.Ty) (sig, detail string
 
 func runC08(env *mc.Env) {
 	depth := c08Depth(env)
-	u := tygen.UniversePlus(depth)
+	u := c08Universe(depth)
 	n := len(u)
 	words := (n + 63) / 64
 	rows := make([][]uint64, n)
@@ -305,7 +311,7 @@ func runC08(env *mc.Env) {
 
 	// round trip of every member
 	{
-		conv := tygen.NewConverter()
+		conv := tygen.NewChainConverter()
 		for _, t := range u {
 			env.R.Eval()
 			if sig, detail := c08Roundtrip(conv, t); sig != "" {
@@ -363,8 +369,8 @@ func runC08(env *mc.Env) {
 
 	// transitivity on the full matrix: R[i][j] ⇒ row(j) ⊆ row(i).
 	//
-	// Don't-care: triples that involve a *bare interface type* (`C.I` as a type
-	// by itself). The statement quantifies "over all types a program can
+	// Don't-care: triples whose first or last member is a *bare interface type*
+	// (`C.I` as a type by itself). The statement quantifies "over all types a program can
 	// denote", and no program can write an interface type outside `{…}`; the
 	// quantifier text on the other hand lists "interfaces with conformances".
 	// The sentence does not settle whether the preorder laws must hold there
@@ -391,7 +397,11 @@ func runC08(env *mc.Env) {
 				if miss == 0 {
 					continue
 				}
-				if isIface[i] || isIface[j] {
+				// only the *endpoints* decide: with denotable a and c the conclusion
+				// a <: c is a statement about denotable types, whatever the middle
+				// type of the chain is (a bare interface b is a type of the
+				// quantifier text, "interfaces with conformances")
+				if isIface[i] {
 					env.R.DontCare.Add(int64(bits.OnesCount64(miss)))
 					continue
 				}
@@ -483,7 +493,7 @@ func c08ScriptRow(l *rt.Ledger, a tygen.Ty, ts []tygen.Ty, vm bool) ([]bool, str
 }
 
 func c08Find(depth int, name string) (tygen.Ty, bool) {
-	for _, t := range tygen.UniversePlus(depth) {
+	for _, t := range c08Universe(depth) {
 		if t.Name == name {
 			return t, true
 		}
@@ -496,7 +506,7 @@ func replayC08(env *mc.Env, raw json.RawMessage) (bool, string) {
 	if err := json.Unmarshal(raw, &c); err != nil {
 		return false, err.Error()
 	}
-	conv := tygen.NewConverter()
+	conv := tygen.NewChainConverter()
 	a, ok := c08Find(c.Depth, c.A)
 	if !ok {
 		return false, "type not in universe: " + c.A
